@@ -95,7 +95,7 @@ PROPS["C05"] = dict(
 LEVEL_TEXT["C05"] = "Explicit-state model checking of the real BitFieldVec<W> against Vec<W> for every word type and a boundary set of widths (all widths for u8/u16 in thorough): every history up to the depth bound is executed on the implementation and all observations are compared in every reached state."
 TECHNIQUE["C05"] = "explicit-state BFS over operation histories executed on the real object per (word type, bit width), observational equivalence with a reference model in every state"
 
-RS_RULE = "case = (structure stack with parameters, shaped bit vector, tail state); vectors: every length 0..=L x {zeros, ones, alternating, single one / single zero at first/mid/last}, concatenations of <= K segments (kind in zeros/ones/alternating/one-every-7/64/65/512, length in word/block/sub-block boundaries +-1), gap families at the U16/U32 span switch (0xFFFF, 0x10000, 0x10001), sparse vectors of 32768/65536 +- delta bits with <= 3 ones (Select9 span classes, word count mod 4), dense prefixes followed by a very sparse tail (inventory entries with 16/32/64-bit subinventories not starting at 0), their inverses and mirror images, uniformly sparse vectors (one every 2049/4096/8191/70000 bits, 40-300 ones: 32-bit spans, spilling subinventories) with and without a dense block in the middle, vectors with ones at floor(i*g)+offset for average gaps g at the span-class boundaries of Select9 (7.5, 7.75, 8, 63.5, 63.75, 64, 127.5, 127.75, 128, 255.5, 255.75, 256) and of the adaptive selectors (15.5, 16, 16.5, 2047, 2048) with three offsets and inverses, inventory-quantum multiples with ragged tails; tail states fresh / popped / truncated (resize down from +70 ones) / two spare zero words; a case is non-trivial when the vector has at least one one and one zero"
+RS_RULE = "case = (structure stack with parameters, shaped bit vector, tail state); vectors: every length 0..=L x {zeros, ones, alternating, single one / single zero at first/mid/last}, concatenations of <= K segments (kind in zeros/ones/alternating/one-every-7/64/65/512, length in word/block/sub-block boundaries +-1), gap families at the U16/U32 span switch (0xFFFF, 0x10000, 0x10001), sparse vectors of 32768/65536 +- delta bits with <= 3 ones (Select9 span classes, word count mod 4), dense prefixes followed by a very sparse tail (inventory entries with 16/32/64-bit subinventories not starting at 0), their inverses and mirror images, uniformly sparse vectors (one every 2049/4096/8191/70000 bits, 40-300 ones: 32-bit spans, spilling subinventories) with and without a dense block in the middle, vectors with ones at floor(i*g)+offset for average gaps g at the span-class boundaries of Select9 (7.5, 7.75, 8, 63.5, 63.75, 64, 127.5, 127.75, 128, 255.5, 255.75, 256) and of the adaptive selectors (15.5, 16, 16.5, 2047, 2048) with three offsets and inverses, inventory-quantum multiples with ragged tails; tail states fresh / popped / truncated (resize down from +70 ones) / two spare zero words / produced by the whole-vector writers (complement then par_flip; fill, flip and sets); a case is non-trivial when the vector has at least one one and one zero"
 PROPS["C01"] = dict(
     level="exploration",
     engine="E1",
@@ -131,7 +131,7 @@ PROPS["C03"] = dict(
     rule=EF_RULE + "; plus every invalid push (out of order, above u, (n+1)-th) after every prefix of every sequence with n <= 3",
     alphabet="builders push / extend / From<slice> / concurrent set in every permutation of indices (n<=4); back-ends plain, EfSeq, EfDict, EfSeqDict, SelectZeroAdapt(SelectAdapt), SelectZeroAdaptConst<2,1>(SelectAdaptConst<2,1>), SelectZeroAdapt(Select9(Rank9)), SelectZeroSmall(SelectSmall(RankSmall<1,9>))",
     bound={"quick": "N=6, M=14, 4-6 values of u; n<=12 in (b); every delivery of an invalid value (push, one-element extend, extend with the valid rest) after every delivery of the valid prefix, all non-monotone slices of <= 4 values over 5 values given to From", "thorough": "N=9, M=17, 6 values of u; n<=40 in (b); all run lengths 1..=200 in (d)"},
-    oracle="the sequence itself: len, get(i) all i, iter/into_iter with exact len() before every next, iter_from(k)/into_iter_from(k) for every k in 0..=n; iter and iter_from through the rest of the Iterator protocol (nth, skip, step_by, count, last, size_hint, polling after the end); an invalid push panics and the builder continues as if it had not happened",
+    oracle="the sequence itself: len, get(i) all i, iter/into_iter with exact len() before every next, iter_from(k)/into_iter_from(k) for every k in 0..=n; iter and iter_from through the rest of the Iterator protocol (nth, skip, step_by, count, last, size_hint, polling after the end); an invalid push panics, further invalid values after it are rejected as well, and the builder continues as if none of it had happened",
     assumptions=STRICT,
 )
 LEVEL_TEXT["C03"] = "Exhaustive enumeration of all short monotone sequences over a small universe plus boundary (n,u) probes over the whole usize range, on every builder and selection back-end, compared element by element with the input sequence."
